@@ -109,13 +109,28 @@ def main(pid, argv):
             secs.append(S.script_text(m, [S.Step("r", "e", val="{70:S%s;,6e:D%s;}" % ((b"x" * rng.choice([3, 40, 500])).hex(), str(mi).encode().hex()))], False))
             ops.append("call 0 %s {71:S%s;} 1" % (m.hex(), (b"q" * rng.choice([0, 30])).hex()))
         cases.append(" | ".join(secs + ["transport proxyP"] + ops))
+    # pipelined calls (two in flight) behind the re-segmenting proxies and plainly: what each receive yields must not depend on how many
+    # replies happened to arrive together
+    for i in range(60 if thorough else 9):
+        secs = ["svc 76 70 31 75 -", "iface %s %s" % (S.hx(b"a.b"), S.hx(b"interface a.b\nmethod M() -> ()"))]
+        wm = []
+        for wi in range(rng.choice([3, 4, 6])):
+            m = b"a.b.W%d" % wi
+            secs.append(S.script_text(m, [S.Step("r", "e", val="{77:D%s;}" % str(wi).encode().hex())], False))
+            wm.append(m.hex())
+        cases.append(" | ".join(secs + ["transport " + ["unixfs", "proxy1", "proxyR"][i % 3], "window " + ",".join(wm)]))
+        if i % 3 == 0:
+            # ... and after the first connection was closed (twice), on two new connections used side by side
+            cases.append(" | ".join(secs + ["transport " + ["unixfs", "tcp"][(i // 3) % 2], "getinfo", "reconnect2 " + ",".join(wm)]))
     impl = _run(bins["h_e2e"], cases)
     model = V.run_model_parallel("e2e-run", cases, jobs=4)
     for l, il, ml in zip(cases, impl, model):
         ck.evaluations += 1
         ck.count("proxy:" + l.split("transport ")[1].split()[0])
         ck.distinct.add(("proxy", l[:3000]))
-        if il.split(" released=")[0] != ml:
+        # (after reconnect2 the handlers run on connections 1 and 2, whose dispatch logs the harness does not print: compare the client's view)
+        key = (lambda s: s.split(" || ")[0]) if "reconnect2" in l else (lambda s: s)
+        if key(il.split(" released=")[0]) != key(ml):
             # the model is segmentation-independent: a difference means messages were not recovered identically on both sides
             nf += 1
             ck.fail("wire-proxy", l[:3000], "behind a re-segmenting proxy client and service did not recover the messages that were sent",
